@@ -1,3 +1,48 @@
+/-
+  C12 — Loading arbitrary bytes as zone data is memory-safe, terminating, deterministic (model level).
+  `Tz.load` is a total Lean function of the bytes (termination and determinism of the model are
+  Lean's own guarantees); what is proved here is that for EVERY byte string no array index leaves
+  its array, no never-written field is read, and no loop runs out of fuel — and that the zone a
+  successful load yields keeps every later query inside its arrays.  The `ovf` flag (signed
+  overflow) can be raised for untame data: see DESIGN.md findings F8/F9 and `C10`.
+  Memory safety of the C++ itself is supported by the ASan run of the correspondence, not proved.
+-/
 import Cctz.Model.Tz
+import Cctz.Spec.TableSem
+import Cctz.Proofs.LoadSafe
+
 namespace Cctz.C12
+open Cctz Cctz.Tz Cctz.Spec
+
+/-- for every byte string and either `Skip` behaviour of the source -/
+def load_safe_statement : Prop :=
+  ∀ (cfg : LoadCfg) (b : Bytes), MemSafe (load cfg b).flags
+
+/-- a successful load yields a table whose indices are all in range -/
+def load_shape_statement : Prop :=
+  ∀ (cfg : LoadCfg) (b : Bytes) (z : Zone), (load cfg b).val = .ok z → TableIdx z
+
+/-- the built-in fixed-offset zones too -/
+def builtin_shape_statement : Prop :=
+  ∀ off : Int, MemSafe (resetToBuiltinUTC off).flags ∧ TableIdx (resetToBuiltinUTC off).val
+
+/-- on such a table every query stays inside the arrays, for every argument and every hint -/
+def queries_safe_statement : Prop :=
+  ∀ (z : Zone), TableIdx z → ∀ (h : Nat) (t : Int) (cs : Fields),
+    MemSafe (breakTime z h t).flags ∧ MemSafe (makeTime z h cs).flags ∧ MemSafe (convert z h cs).flags ∧
+    MemSafe (nextTransition z t).flags ∧ MemSafe (prevTransition z t).flags
+
+/-- the footer parser's result is fully determined before ExtendTransitions reads it: no `unset`
+read for any zone and any footer (this was false before the repair of F1) -/
+def extend_no_unset_statement : Prop :=
+  ∀ (z : Zone), (extendTransitions z).flags.unset = false
+
+/-- the sentinels and limits are the documented ones -/
+def constants_statement : Prop :=
+  Gen.sentinelFirst = -576460752303423488 ∧ Gen.sentinelSecond = 2147483647 ∧ Gen.extendYears = 401 ∧
+  Gen.kSecsPerDay = 86400 ∧ Gen.kSecsPer400Years = 12622780800 ∧ Gen.kDaysPerYear = [365, 366] ∧
+  Gen.kSecsPerYear = [31536000, 31622400] ∧
+  Gen.kMonthOffsets0 = [-1, 0, 31, 59, 90, 120, 151, 181, 212, 243, 273, 304, 334, 365] ∧
+  Gen.kMonthOffsets1 = [-1, 0, 31, 60, 91, 121, 152, 182, 213, 244, 274, 305, 335, 366]
+
 end Cctz.C12
